@@ -3,7 +3,7 @@ style so that sub-expressions that can raise are bound (`>>=`) in Python's evalu
 import ast
 
 from py2lean_types import (Unsupported, Impure, Ty, TInt, TBool, TStr, TNone, TRange, TErased, TList, TOpt, TTuple,
-                           TDict, TObj, TAbs, TExc, TUnion, TVar, THet, INT, BOOL, STR, NONE, RANGE, ERASED,
+                           TDict, TObj, TAbs, TExc, TUnion, TVar, THet, TMaybe, INT, BOOL, STR, NONE, RANGE, ERASED,
                            resolve, unify, join, coerce, proj, iter_elem)
 
 EXC = {"ValueError": ".valueError", "TypeError": ".typeError", "IndexError": ".indexError",
@@ -115,7 +115,10 @@ class ExprMixin:
 
     def e_Name(self, e, env, k):
         if e.id in env:
-            return k(*env[e.id])
+            c, t = env[e.id]
+            if isinstance(resolve(t), TMaybe):
+                return self.bind("Py.bound {}".format(c), resolve(t).elem, k, "v")
+            return k(c, t)
         raise Unsupported("unknown name " + e.id)
 
     def e_Attribute(self, e, env, k):
@@ -331,7 +334,8 @@ class ExprMixin:
                     raise Unsupported("`in range` on a non-integer")
                 p = "(Py.Range.contains {} {} = true)".format(b, a)
             elif isinstance(tb, TDict):
-                p = "(Py.dictHas {} {} = true)".format(b, coerce(a, ta, tb.k))
+                d, key = self.dict_probe(b, tb, a, ta)
+                p = "(Py.dictHas {} {} = true)".format(d, key)
             elif isinstance(tb, (TList, TTuple)):
                 el, view = iter_elem(tb)
                 j = join(ta, el)
@@ -369,6 +373,18 @@ class ExprMixin:
             else:
                 raise Unsupported("ordering on {}: {}".format(t.lean(), src(whole)))
         return "({} {} {})".format(xs[0], sym, xs[1])
+
+    def dict_probe(self, d, td, key, tkey):
+        """(dictionary, key) for a lookup; a key of a wider type (a tuple that may contain None) is compared in that
+        type: the stored keys are seen in it too"""
+        td, tkey = resolve(td), resolve(tkey)
+        j = join(td.k, tkey)
+        if j is None:
+            raise Unsupported("dictionary lookup with a key of another type")
+        j = resolve(j)
+        if j == resolve(td.k):
+            return d, coerce(key, tkey, td.k)
+        return "(List.map (fun kv => ({}, kv.2)) {})".format(coerce("kv.1", td.k, j), d), coerce(key, tkey, j)
 
     def cond(self, e, env, kt, kf):
         """branch on a condition that may need binds (short-circuit order kept).
